@@ -7,7 +7,7 @@
    [imap st k i]: the identity map of state [st] maps identity key [k] to object number [i]. *)
 From Coq Require Import List ZArith Bool.
 Import ListNotations.
-From SAV.orm Require Import IdMap IdMapSpec IdMapLemmas IdMapProofs IdMapMain IdMapPartial.
+From SAV.orm Require Import IdMap IdMapSpec IdMapLemmas IdMapProofs IdMapMain IdMapGuarded.
 Open Scope Z_scope.
 
 (* functional: in every reachable state (every history, every environment) an identity key is mapped to
@@ -29,6 +29,21 @@ Print Assumptions c34_mapped_objects_have_their_key.
 Theorem c34_every_operation_preserves_the_invariant : forall e o st, Inv st -> Inv (rst (step e o st)).
 Proof. exact step_inv. Qed.
 Print Assumptions c34_every_operation_preserves_the_invariant.
+
+(* key_consistent in both directions, and "never more than one object for a given identity key", on the
+   guarded region.  The guard is the ghost flag [bad] of the model (never read by it): it is raised when an
+   identity_map.replace() evicts another object, when _restore_snapshot re-maps a state that is not attached,
+   when was_already_deleted() / get() find the row of a mapped object gone, and when Session.delete() is
+   given a state carrying the _deleted flag.  For every history after which the flag is still down (every
+   length, every environment): each persistent object is the mapped one, everything mapped is attached, and
+   two persistent objects never share an identity key *)
+Theorem c34_key_consistent_guarded : forall eoc pks h, bad (run h (init eoc pks)) = false ->
+  let st := run h (init eoc pks) in
+  persistent_mapped st = true /\ mapped_attached st = true /\
+  (forall i j oi oj, nth_error (objs st) i = Some oi -> nth_error (objs st) j = Some oj ->
+     persistent oi = true -> persistent oj = true -> okey oi = okey oj -> i = j).
+Proof. exact guarded_consistent. Qed.
+Print Assumptions c34_key_consistent_guarded.
 
 (* query_returns_mapped_object: a query that does not raise returns, row by row (primary keys [rws] in
    order), the object that the identity map holds for (pk, token) afterwards *)
@@ -53,16 +68,17 @@ Theorem c34_get_returns_mapped_object_refuted : exists e k st,
 Proof. exists (env_of [1] true false), (1, 0), (run h_get_stale (init true [1; 1])). exact get_stale. Qed.
 Print Assumptions c34_get_returns_mapped_object_refuted.
 
-(* refuted: "what the map holds is attached to the session" (key_consistent, left to right) *)
+(* refuted outside the guard: "what the map holds is attached to the session" (key_consistent, left to right) *)
 Theorem c34_mapped_is_attached_refuted : exists eoc pks h,
-  mapped_attached (run h (init eoc pks)) = false.
-Proof. exists false, [1], h_detached_mapped. exact (proj1 detached_mapped). Qed.
+  mapped_attached (run h (init eoc pks)) = false /\ bad (run h (init eoc pks)) = true.
+Proof. exists false, [1], h_detached_mapped. exact (conj (proj1 detached_mapped) (proj2 (proj2 (proj2 detached_mapped)))). Qed.
 Print Assumptions c34_mapped_is_attached_refuted.
 
-(* refuted: "a persistent object is the mapped one / one persistent object per identity" (key_consistent,
-   right to left), when a row vanishes behind the session ... *)
+(* refuted outside the guard: "a persistent object is the mapped one / one persistent object per identity"
+   (key_consistent, right to left), when a row vanishes behind the session ... *)
 Theorem c34_one_object_per_identity_refuted : exists eoc pks h,
-  one_persistent_per_key (run h (init eoc pks)) = false /\ persistent_mapped (run h (init eoc pks)) = false.
+  one_persistent_per_key (run h (init eoc pks)) = false /\ persistent_mapped (run h (init eoc pks)) = false /\
+  bad (run h (init eoc pks)) = true.
 Proof. exists true, [1], h_row_vanished. exact row_vanished. Qed.
 Print Assumptions c34_one_object_per_identity_refuted.
 
@@ -73,54 +89,14 @@ Theorem c34_double_row_switch_refuted :
   let s1 := rst (step e Commit (rst (step e (Add 0) (init true [1; 1; 1])))) in
   let s2 := rst (step e1 (Add 2) (rst (step e1 (Add 1) (rst (step e1 (Delete 0) s1))))) in
   let st := rst (step e1 Flush s2) in
-  one_persistent_per_key st = false /\ persistent_mapped st = false.
+  one_persistent_per_key st = false /\ persistent_mapped st = false /\ bad st = true.
 Proof. exact double_row_switch. Qed.
 Print Assumptions c34_double_row_switch_refuted.
-
-(* key_consistent, right to left ("a persistent object is the mapped one"), PARTIAL: proved per step of the
-   model, not lifted to histories.  Every per-object step keeps it, and so does identity_map.replace() when
-   it evicts nobody; what is missing is a guard on histories ("no replace() ever evicts another object")
-   and the induction under it - the refutations above are exactly histories with such an eviction. *)
-Theorem c34_persistent_is_mapped_partial :
-  (forall h t, keeps pb (expunge_obj h t)) /\ (forall h, keeps pb (restore_expunge_obj h)) /\
-  (forall h, keeps pb (newly_deleted_obj h)) /\ keeps pb expire_obj /\ keeps pb end_tx_obj /\
-  (forall v, keeps pb (set_pk v)) /\ keeps pb revert_obj /\ (forall h k, keeps pb (register_obj h k)) /\
-  keeps pb (fun o => set_sess true (set_iimap true (set_isdel false o))) /\
-  keeps pb (fun o => set_isdel true (set_sess true (set_iimap true o))) /\
-  (forall o, okey o = None -> pb (set_sess true (set_inew true o)) = true) /\
-  (forall i k g st, Inv st -> (holder k st = None \/ holder k st = Some i) -> keeps pb g ->
-     SP (fun _ => pb) st -> SP (fun _ => pb) (app_all (claiming i k g) st)).
-Proof.
-  exact (conj keeps_pb_expunge (conj keeps_pb_restore_expunge (conj keeps_pb_newly_deleted (conj keeps_pb_expire
-        (conj keeps_pb_end_tx (conj keeps_pb_set_pk (conj keeps_pb_revert (conj keeps_pb_register (conj keeps_pb_update
-        (conj keeps_pb_delete (conj keeps_pb_save (claiming_without_eviction pb)))))))))))).
-Qed.
-Print Assumptions c34_persistent_is_mapped_partial.
-
-(* key_consistent, left to right ("what the map holds is attached"), PARTIAL in the same sense: every
-   per-object step keeps it except the two with a side condition - the key-switch restore of
-   _restore_snapshot needs the state to be attached (the refutation above), the commit-time detach of
-   transaction._deleted needs its members to be out of the map *)
-Theorem c34_mapped_is_attached_partial :
-  (forall h t, keeps ab (expunge_obj h t)) /\ (forall h, keeps ab (restore_expunge_obj h)) /\
-  (forall h, keeps ab (newly_deleted_obj h)) /\ keeps ab expire_obj /\ keeps ab end_tx_obj /\
-  (forall v, keeps ab (set_pk v)) /\ keeps ab revert_obj /\ keeps ab (set_iimap false) /\
-  (forall h k o, jb o = true -> ab o = true -> implb (inew o) (osess o) = true -> inew o || iimap o = true ->
-     ab (register_obj h k o) = true) /\
-  (forall old o, osess o = true -> ab (set_iimap true (set_key (Some old) o)) = true) /\
-  (forall o, ab o = true -> implb (itdel o) (negb (iimap o)) = true ->
-     ab (let o1 := if iimap o then expire_obj o else o in if itdel o1 then detach_obj false o1 else o1) = true).
-Proof.
-  exact (conj keeps_ab_expunge (conj keeps_ab_restore_expunge (conj keeps_ab_newly_deleted (conj keeps_ab_expire
-        (conj keeps_ab_end_tx (conj keeps_ab_set_pk (conj keeps_ab_revert (conj keeps_ab_evict (conj keeps_ab_register
-        (conj keeps_ab_unswitch keeps_ab_commit)))))))))).
-Qed.
-Print Assumptions c34_mapped_is_attached_partial.
 
 (* the consistency predicates are satisfiable on a history through loads and mutations *)
 Example c34_ex_consistent : let st := run h_good (init true [5]) in
   mapped_attached st = true /\ persistent_mapped st = true /\ one_persistent_per_key st = true /\
-  length (objs st) = 4%nat.
+  length (objs st) = 4%nat /\ bad st = false.
 Proof. exact good_consistent. Qed.
 Example c34_ex_imap : imap (run h_good (init true [5])) (1, 0) 1.
 Proof. eexists. split; [vm_compute; reflexivity|split; reflexivity]. Qed.
